@@ -163,11 +163,20 @@ def check_case(ctx, fmt, variant, drv_lines, expectations):
             # half of the files are read with a reader instance that has already read other files of the same
             # format (batch use): the layout and the data offset must not depend on what was read before
             pool = ctx.__dict__.setdefault("_c01_readers", {})
-            reused = fmt in pool and ctx.rng.random() < 0.5
-            reader = pool[fmt] if reused else R(tle_dir="/nonexistent", tle_name="x")
+            reused = fmt in pool and ctx.rng.random() < 0.5 and not variant.get("hdate")
+            if variant.get("hdate"):
+                # the header generation is NAMED by the caller (option header_date = the file's start date) instead of
+                # being read from the file: the same bytes must come back
+                import datetime
+                y_, d_, _ = variant["start"]
+                hd = datetime.date(y_, 1, 1) + datetime.timedelta(days=d_ - 1)
+                reader = R(tle_dir="/nonexistent", tle_name="x", header_date=hd)
+            else:
+                reader = pool[fmt] if reused else R(tle_dir="/nonexistent", tle_name="x")
             variant = dict(variant, reader="reused" if reused else "fresh")
             reader.read(path)
-            pool[fmt] = reader
+            if not variant.get("hdate"):
+                pool[fmt] = reader
             ctx.branches["reader/%s" % variant["reader"]] += 1
             count_warn = any("Unexpected number of scanlines" in str(w.message) for w in wl)
     except Exception as e:
@@ -276,6 +285,9 @@ def variants(ctx, fmt):
         for e in (1, 2, 3):
             lst.append(dict(base, n=3, count=3, epoch=e, start=starts[e], archive=True, aname="unset"))
         lst.append(dict(base, n=3, count=3, archive=True, aname="cp500"))
+        for e in (1, 2, 3):
+            lst.append(dict(base, n=3, count=3, epoch=e, start=starts[e], archive=True, hdate="explicit"))
+            lst.append(dict(base, n=2, count=2, epoch=e, start=starts[e], archive=False, hdate="explicit", tail=5))
         # header-epoch boundaries: last day of epoch 1, first/last day of epoch 2, first day of epoch 3
         lst.append(dict(base, n=2, count=2, epoch=1, start=(1992, 251, 1000)))
         lst.append(dict(base, n=2, count=2, epoch=2, start=(1992, 252, 1000)))
